@@ -18,17 +18,17 @@ func init() {
 			"--informative is exercised on upper-case ACGT alignments without gaps, where every reading of 'character' agrees; extract --translate and --gff are not exercised (translation is C05's subject)",
 			"absence of violations is established on the explored cases only; the enumerated sub-space is covered completely",
 		},
-		LevelText: "Generated-input search against a reference model: ~72 000 (quick) to ~2.9 million (thorough) alignments with windows, site lists, reference coordinates, partitions and concatenations compared with column arithmetic on the generated rows and with the re-assembly relations, ~58 000 (quick) to ~325 000 (thorough) enumerated boundary tuples, and ~2 000 (quick) to ~32 000 (thorough) executions of the commands. Shows absence of violations on what was explored; the enumerated tuples are exhaustive for L <= 8 (10 in thorough).",
+		LevelText: "Generated-input search against a reference model: ~84 000 (quick) to ~2.9 million (thorough) alignments with windows, site lists, reference coordinates, partitions and concatenations compared with column arithmetic on the generated rows and with the re-assembly relations, ~58 000 (quick) to ~325 000 (thorough) enumerated boundary tuples, and ~2 000 (quick) to ~32 000 (thorough) executions of the commands. Shows absence of violations on what was explored; the enumerated tuples are exhaustive for L <= 8 (10 in thorough).",
 		LevelNote: "trusts the harness's own column arithmetic, its partition text writer and its minimal FASTA reader; corners the documentation leaves open are accepted in every reading and counted",
 		Technique: "property-based testing (rapid): reference model + inverse/re-assembly relations; bounded-exhaustive enumeration of boundary arguments; command-line differential",
 		DesignRef: "DESIGN.md section 5, C04",
 		Runs: []runSpec{
-			{Name: "windows", Test: "^TestWindows$", Quick: 12000, Thorough: 60000, Shards: 8},
-			{Name: "sites", Test: "^TestSites$", Quick: 12000, Thorough: 60000, Shards: 8},
-			{Name: "refcoord", Test: "^TestRefCoordinates$", Quick: 12000, Thorough: 60000, Shards: 8},
-			{Name: "concat", Test: "^TestConcatAppend$", Quick: 12000, Thorough: 60000, Shards: 8},
-			{Name: "split", Test: "^TestSplit$", Quick: 12000, Thorough: 60000, Shards: 8},
-			{Name: "transpose-diff", Test: "^TestTransposeDiff$", Quick: 12000, Thorough: 60000, Shards: 8},
+			{Name: "windows", Test: "^TestWindows$", Quick: 14000, Thorough: 60000, Shards: 8},
+			{Name: "sites", Test: "^TestSites$", Quick: 14000, Thorough: 60000, Shards: 8},
+			{Name: "refcoord", Test: "^TestRefCoordinates$", Quick: 14000, Thorough: 60000, Shards: 8},
+			{Name: "concat", Test: "^TestConcatAppend$", Quick: 14000, Thorough: 60000, Shards: 8},
+			{Name: "split", Test: "^TestSplit$", Quick: 14000, Thorough: 60000, Shards: 8},
+			{Name: "transpose-diff", Test: "^TestTransposeDiff$", Quick: 14000, Thorough: 60000, Shards: 8},
 			{Name: "exhaustive", Test: "^TestExhaustive$", Quick: 1, Thorough: 1},
 			{Name: "cli-subseq", Test: "^TestCLISubseq$", Quick: 700, Thorough: 2000, Shards: 4},
 			{Name: "cli-subsites", Test: "^TestCLISubsites$", Quick: 450, Thorough: 2000, Shards: 4},
